@@ -26,6 +26,13 @@ pub fn profiles04() -> Vec<Profile> {
     ]
 }
 
+pub fn profiles04_prio() -> Vec<Profile> {
+    vec![
+        Profile { choice: true, choice_weight: 6, pred_t: true, nodeops: true, skips: true, parts: true, ..Profile::base("choice-predt") },
+        Profile { choice: true, choice_weight: 8, pratt: true, max_rules: 4, ..Profile::base("choice-pratt") },
+    ]
+}
+
 pub struct P04;
 pub struct P06;
 
@@ -39,20 +46,22 @@ impl LabProp for P04 {
         RULE04
     }
     fn profiles(&self, _t: Tier) -> Vec<Profile> {
-        profiles04()
+        let mut v = profiles04();
+        v.extend(profiles04_prio());
+        v
     }
     fn n_grammars(&self, t: Tier) -> usize {
-        t.pick(110, 1500)
+        t.pick(80, 1100)
     }
     fn extra_grammars(&self, _t: Tier) -> Vec<(Grammar, &'static str)> {
-        super::real_grammars().into_iter().filter(|(g, _)| no_user_semantics(g) && plain_cfg(g)).collect()
+        super::real_grammars().into_iter().filter(|(g, _)| no_user_semantics(g)).collect()
     }
     fn domain(&self, g: &Grammar, _i: &GInfo) -> Result<(), &'static str> {
         if !no_user_semantics(g) {
             return Err("has ?n or !n");
         }
-        if !plain_cfg(g) {
-            return Err("ordered choice / ?t (interpreter stage)");
+        if !plain_cfg(g) && (g.rules.iter().any(|r| r.body.is_none()) || g.any_regex(&|r| matches!(r, Regex::Return))) {
+            return Err("prioritised grammar with empty rule or & (not modelled by the interpreter)");
         }
         Ok(())
     }
@@ -69,7 +78,22 @@ impl LabProp for P04 {
             return Ok(());
         }
         let toks = inputs::strip_trivia(&req.tokens, g);
-        let (member, _) = info.earley[req.entry].recognize(&toks);
+        let member = if plain_cfg(g) {
+            info.earley[req.entry].recognize(&toks).0
+        } else {
+            // prioritised reading (ordered choice, ?t): value-semantics interpreter
+            let never = |_: &str, _: u32, _: usize| false;
+            let rule = if req.entry == 0 { g.start } else { g.parts[req.entry - 1] };
+            match crate::interp::Interp::new(g, info, &toks, req.entry, &never).run(rule, req.entry != 0) {
+                crate::interp::Outcome::Accept { .. } => true,
+                crate::interp::Outcome::Reject { .. } => false,
+                crate::interp::Outcome::Unknown(w) => {
+                    ev.exclude(&format!("interpreter: {w}"));
+                    return Ok(());
+                }
+            }
+        };
+        ev.label(if plain_cfg(g) { "judged_by_earley" } else { "judged_by_interpreter" });
         let has_loop = g.any_regex(&|r| matches!(r, Regex::Star(_) | Regex::Plus(_))) || g.is_pratt_any();
         if member {
             ev.label("sentences");
